@@ -148,7 +148,7 @@ func (m *Machine) Step(op Op) error {
 			ki, ok = AbsentKey(t.Model, poolLen, m.sel(op))
 		case OpUpdate:
 			ki, ok = PresentKey(t.Model, m.sel(op))
-			if ok && t.Model[ki] == vn {
+			for ok && w.Cfg.Val != VNil && w.Cfg.SameVal(t.Model[ki], vn) {
 				vn = vn + 1
 			}
 		case OpInsertSame:
@@ -289,7 +289,7 @@ func (m *Machine) Step(op Op) error {
 			return ErrSkipped
 		}
 		vn := op.V
-		if vn == t.Model[ki] {
+		for w.Cfg.SameVal(vn, t.Model[ki]) {
 			vn++
 		}
 		if err := w.DeleteMustFail(t, ki, vn); err != nil {
